@@ -99,6 +99,7 @@ write('Templates.lean',body)
 from decimal import getcontext, FloatOperation
 import rp2.rp2_decimal as RD, rp2.balance as BAL, rp2.ods_parser as OPS
 from rp2.configuration import MIN_DATE, MAX_DATE
+import rp2.configuration as CFGM
 fmt=[n for n in ast.walk(ast.parse(open(os.path.join(repo,'src/rp2/ods_parser.py')).read())) if isinstance(n,ast.FormattedValue) and n.format_spec is not None]
 specs=sorted({ast.unparse(f.format_spec) for f in fmt})
 body=f'''namespace Rp2.Gen
@@ -111,11 +112,15 @@ def minDateOrdinal : Int := {MIN_DATE.toordinal()-719163}
 def maxDateOrdinal : Int := {MAX_DATE.toordinal()-719163}
 def tableEnd : String := {lstr(OPS._TABLE_END)}
 def parserFormatSpecs : List String := {llist(map(lstr,specs))}
+/-- `_HEADER_COLUMNS`: the column names a header section of the configuration file may use -/
+def headerColumns : List (String × List String) := {llist('('+lstr(k)+', '+llist(map(lstr,sorted(v)))+')' for k,v in sorted(CFGM._HEADER_COLUMNS.items()))}
+def minYear : Int := {MIN_DATE.year}
 end Rp2.Gen
 '''
 write('Consts.lean',body)
 # ---- Imports
-mods=[]; calls=[]; dyn=[]; opens=[]
+mods=[]; calls=[]; dyn=[]; opens=[]; muts=[]
+MUT={'write_bytes','write_text','unlink','rmdir','rename','removedirs','rmtree','chmod','chown','touch','symlink_to','hardlink_to','truncate','copy2','copyfile','copytree','move','mkdir','makedirs','save','saveas','write','writelines','dump'}
 for f in sorted(glob.glob(os.path.join(repo,'src/rp2/**/*.py'),recursive=True)):
     t=ast.parse(open(f).read()); imps=set(); rel=os.path.relpath(f,os.path.join(repo,'src'))
     for n in ast.walk(t):
@@ -129,6 +134,7 @@ for f in sorted(glob.glob(os.path.join(repo,'src/rp2/**/*.py'),recursive=True)):
             if s_ in ('os.system','os.popen','os.fork','os.forkpty','eval','exec','__import__','compile') or s_.startswith(('os.exec','os.spawn','os.posix_spawn','subprocess.','socket.','platform.','uuid.')): calls.append((rel,s_))
             if s_ in ('import_module','importlib.import_module') and n.args:
                 dyn.append((rel, ast.unparse(n.args[0])))
+            if rel!='rp2/rp2_configuration_translator.py' and (s_.split('.')[-1] in MUT or s_.startswith(('shutil.','os.replace','os.rename','os.remove','os.unlink','tempfile.'))): muts.append((rel,s_))
             if s_=='open' and rel!='rp2/rp2_configuration_translator.py':
                 mode='r'
                 if len(n.args)>1: mode=ast.unparse(n.args[1]).strip('\'"')
@@ -136,6 +142,6 @@ for f in sorted(glob.glob(os.path.join(repo,'src/rp2/**/*.py'),recursive=True)):
                     if kw.arg=='mode': mode=ast.unparse(kw.value).strip('\'"')
                 opens.append((rel,mode))
     mods.append((rel,sorted(imps)))
-body='namespace Rp2.Gen\n/-- (module file, root names of everything it imports) -/\ndef imports : List (String × List String) :=\n  '+llist([f'({lstr(m)}, {llist(map(lstr,i))})' for m,i in mods])+'\n/-- call sites of process-spawning / dynamic-code / networking facilities -/\ndef dangerousCalls : List (String × String) := '+llist([f'({lstr(m)}, {lstr(c)})' for m,c in calls])+'\n/-- import_module call sites: (module, first argument as written) -/\ndef dynamicImports : List (String × String) := '+llist([f'({lstr(m)}, {lstr(c)})' for m,c in dyn])+'\n/-- builtin open() call sites outside the configuration translator: (module, mode) -/\ndef opens : List (String × String) := '+llist([f'({lstr(m)}, {lstr(c)})' for m,c in opens])+'\nend Rp2.Gen\n'
+body='namespace Rp2.Gen\n/-- (module file, root names of everything it imports) -/\ndef imports : List (String × List String) :=\n  '+llist([f'({lstr(m)}, {llist(map(lstr,i))})' for m,i in mods])+'\n/-- call sites of process-spawning / dynamic-code / networking facilities -/\ndef dangerousCalls : List (String × String) := '+llist([f'({lstr(m)}, {lstr(c)})' for m,c in calls])+'\n/-- import_module call sites: (module, first argument as written) -/\ndef dynamicImports : List (String × String) := '+llist([f'({lstr(m)}, {lstr(c)})' for m,c in dyn])+'\n/-- builtin open() call sites outside the configuration translator: (module, mode) -/\ndef opens : List (String × String) := '+llist([f'({lstr(m)}, {lstr(c)})' for m,c in opens])+'\n/-- call sites (outside the configuration translator tool) of methods that create, change or delete a file or directory: (module, callee as written) -/\ndef fileMutations : List (String × String) := '+llist([f'({lstr(m)}, {lstr(c)})' for m,c in muts])+'\nend Rp2.Gen\n'
 write('Imports.lean',body)
 print('generated', sorted(os.listdir(outdir)))
